@@ -168,7 +168,7 @@ def run_kani_group(ctx, group):
     # run all in one pool but with per-harness timeout: wrap
     # a group may ask for more address space per solver and fewer solvers at once (memory-bound groups)
     g_mem = max(ctx.mem_gb, float(gcfg.get("mem_gb", 0)))
-    g_jobs = min(ctx.jobs, int(gcfg.get("max_jobs", ctx.jobs)))
+    g_jobs = min(ctx.jobs, int(gcfg.get("max_jobs", ctx.jobs)), int(pcfg.get("max_jobs", ctx.jobs)))
     results = run_pool_var(hdir, target, sel, logdir, lambda h: harness_timeout(pcfg, h, ctx.tier),
                            g_mem, g_jobs, kargs, cbmc_args_for, progress, gcfg.get("recursion_caps", ()))
     for r in results:
@@ -190,6 +190,20 @@ def keep_log(ctx, r):
         pass
 
 
+RUNNING = [0]
+MEM_HEADROOM_GB = float(os.environ.get("VERIF_MEM_HEADROOM_GB", "14"))
+
+
+def _mem_available_gb():
+    try:
+        for line in open("/proc/meminfo"):
+            if line.startswith("MemAvailable:"):
+                return int(line.split()[1]) / (1 << 20)
+    except Exception:
+        pass
+    return 1e9
+
+
 def run_pool_var(hdir, base_target, harnesses, logdir, timeout_of, mem_gb, jobs, extra_args, cbmc_args_for, progress, caps=()):
     import shutil
     import subprocess
@@ -203,12 +217,23 @@ def run_pool_var(hdir, base_target, harnesses, logdir, timeout_of, mem_gb, jobs,
         if i != 0:
             subprocess.run(["cp", "-a", base_target, tdir], check=False)
         while True:
+            # memory-aware admission: CBMC instances of 9-12 GB resident were measured; do not start another solver
+            # while less than MEM_HEADROOM_GB is available (unless nothing of ours is running: no deadlock)
+            waited = 0
+            while RUNNING[0] > 0 and _mem_available_gb() < MEM_HEADROOM_GB and waited < 900:
+                time.sleep(5)
+                waited += 5
             with lock:
                 if not queue:
                     break
                 h = queue.pop(0)
+                RUNNING[0] += 1
             lp = os.path.join(logdir, h.name.replace("::", "__") + ".log")
-            r = kanirun.run_one(hdir, tdir, h, lp, timeout_of(h), mem_gb, extra_args, cbmc_args_for(h), caps)
+            try:
+                r = kanirun.run_one(hdir, tdir, h, lp, timeout_of(h), mem_gb, extra_args, cbmc_args_for(h), caps)
+            finally:
+                with lock:
+                    RUNNING[0] -= 1
             progress(r, tdir)
             with lock:
                 results[h.name] = r
